@@ -136,6 +136,7 @@ type Unit struct {
 	guardedTerm   map[string]guardedVal
 	epochAlloc    map[int]Term
 	paramAlias    map[string]string
+	paramAliasIdx map[string]int // contract parameter name -> index of the root function's parameter (funcfield contracts)
 	closureTerms  map[string]*closureVal
 	pureFnTerms   map[string]string
 	escapeMemo    map[*ssa.Alloc]bool
@@ -143,6 +144,7 @@ type Unit struct {
 	fnConstOrder  []Term
 	axiomFacts    []string
 	localCells    []localCell
+	fieldFnTerms  map[string]string
 	callsiteErr   map[string]string
 	callsiteBound map[string]bool
 	prune         *pruneIndex
